@@ -411,7 +411,19 @@ impl WriteSource for pr::Stmt {
 
         for annotation in &self.annotations {
             r += "@";
-            r += &annotation.expr.write(opt.clone())?;
+            // `@` is followed by one term: anything but a tuple or a name goes into parentheses
+            // (`@f x` is `@f` and a statement `x`; `@10` is a time literal)
+            if matches!(
+                annotation.expr.kind,
+                pr::ExprKind::Tuple(_) | pr::ExprKind::Ident(_)
+            ) && annotation.expr.alias.is_none()
+            {
+                r += &annotation.expr.write(opt.clone())?;
+            } else {
+                let mut inner = opt.clone();
+                inner.context_strength = 0;
+                r += &format!("({})", annotation.expr.write(inner)?);
+            }
             r += "\n";
             r += &opt.write_indent();
             opt.reset_line()?;
